@@ -484,6 +484,7 @@ static bool tl_sinv(const struct tl_snap *s, unsigned int maxe)
  */
 #ifdef TL_SHAPE
 static const uint8_t tl_nrecs[] = {TL_NRECS};
+static unsigned int tl_shape_mask = TL_SHAPE; /* a harness that builds two tables may switch the mask between them */
 #endif
 static int tl_cur_slot = -1; /* slot being built (main template only) */
 static bool tl_shape_on;    /* set by the harness while it builds the main template */
@@ -544,7 +545,7 @@ static struct trie_node *tl_template(enum lrtr_ip_version ver, unsigned int dept
 
 #ifdef TL_SHAPE
 		if (tl_shape_on)
-			present = (TL_SHAPE >> i) & 1;
+			present = (tl_shape_mask >> i) & 1;
 #endif
 		if (i > 0 && !slot[(i - 1) / 2])
 			present = false;
